@@ -10,6 +10,7 @@ from vf.ref import nfa as rn
 from vf.worker import call
 
 PROP = "C17"
+TECHNIQUE = "runtime contracts with an independent antichain fixpoint oracle, all rule permutations x ordering heuristics; products judged against a reference-side product"
 RULE = ("reduced-form indexed grammars (<=4 non-terminals, <=2 indices, <=8 rules: end / production / consumption / "
         "duplication; several consumption rules for one (index, variable); recursion through the stack; no end rule; "
         "start absent from the rules; duplicates) x every permutation of the rule list (<=5 rules; 24 sampled "
